@@ -46,6 +46,8 @@ def run(ctx):
                       "directly or through a local alias (shared with R13.f)", floor=1)
     ctx.rule("R12.m", "setter model: Parameter.__set__ interpreted abstractly on every combination (576) of route x constant/readonly x validation outcome x identity x reference mode x watchers x batching agrees with the specification of this property (see checks/setter_model.py)", floor=1)
     ctx.rule("R12.k", "constructor model: Parameters._setup_params (with _instantiate_param) interpreted abstractly on 288 combinations of keywords x reference modes (plain value / reference with a value / reference without a value yet / asynchronous reference) x an unknown keyword: own copy of every instantiate=True default and pinned constants before any keyword is applied (and still there when a keyword assigns nothing), exactly the specified assignments, every reference and only references recorded", floor=1)
+    ctx.rule("R12.i", "instance-copy model: ParameterizedFunction.instance called on an existing instance hands the constructor the source's value of EVERY parameter but its name (one "
+                      "equal to the class default included -- the copy owns it and does not follow later class-level changes) plus the overrides", floor=1)
     ctx.rule("R12.s", "per-object state is per object: no class body in param / numbergen binds a mutable container to an attribute that a method mutates in place through self (one list "
                       "shared by all instances: what one object saves, another restores into its own parameter values) -- shared with R19.s", floor=1)
     from checks.shared import no_shared_mutable_class_state
@@ -283,6 +285,7 @@ def run(ctx):
     class_cm_restores(ctx, "R12.t")
     from checks import instcopy_model
     instcopy_model.report(ctx, "R12.p")
+    instcopy_model.pf_instance_model(ctx, "R12.i")
     from checks import namespace_model
     namespace_model.report(ctx, "R12.q")
 
